@@ -43,6 +43,7 @@ type frame struct {
 // Interp interprets function bodies of /repo on the abstract domain.
 type Interp struct {
 	D          *Dom
+	onceDone   map[*Cell]Node // sync.Once cells -> condition under which Do has already run its function
 	Prog       *load.Program
 	funcs      map[types.Object]funcInfo
 	live       Node
